@@ -41,7 +41,7 @@ PROPS = {
     'C03': dict(
         level='model_checking', verus_units=['utils', 'core'],
         kani=True,
-        kani_select=dict(quick=r'^k_task_\w+_red_n(3c1|3c2|1c1)|^k_glue_map_fil_red_n3c1|^k_api_par2_(map_fil_reduce|fil_fold|map_min_by_key|map_fil_sum)',
+        kani_select=dict(quick=r'^k_task_\w+_red_n(3c1|3c2|1c1|2c1)|^k_glue_map_fil_red_n3c1|^k_api_par2_(map_fil_reduce|fil_fold|map_min_by_key|map_fil_sum)',
                          thorough=r'^k_task_\w+_red_|^k_glue_\w+_red_|^k_api_par2_\w+_(reduce|fold|sum|min|max|min_by|max_by|min_by_key|max_by_key)_n'),
         trusted_base=[T1, T5, T6, A64, ARITH, RSCHED, STUBS, MODEL],
         assumptions=[TASK_BOUND, 'operators checked: wrapping add, xor, min, max on u8 payloads (associative and commutative)'],
@@ -86,8 +86,8 @@ PROPS = {
     'C08': dict(
         level='proof', verus_units=['core'],
         kani=True,
-        kani_select=dict(quick=r'^k_api_seq_(empty_collect_vec|map_fil_collect_vec|map_fil_count|map_fil_reduce|map_fil_find|fil_first|map_any|fil_for_each|empty_count)',
-                         thorough=r'^k_api_seq_'),
+        kani_select=dict(quick=r'^k_pair_|^k_api_seq_(empty_collect_vec|map_fil_collect_vec|map_fil_count|map_fil_reduce|map_fil_find|fil_first|map_any|fil_for_each|empty_count)',
+                         thorough=r'^k_pair_|^k_api_seq_'),
         trusted_base=[T1, T5, T7, AHW, A64, ARITH, STUBS, MODEL],
         assumptions=['workers of one run are the only threads executing closures during it and are joined before the run returns (T5)', TASK_BOUND + ' (only for the Max(1) clause: data bounded, parameters fully symbolic)'],
         explanation='Verus (unbounded): calc_num_threads(len, Max(n)) <= n; Runner::new gives 1 <= max_num_threads <= n; every run/run_map/reduce spawns between 1 and max_num_threads workers for every sequence of has_more() answers; is_sequential() <=> Max(1). Kani: with num_threads(1) and a fully symbolic chunk_size no terminal reaches the Runner (its three entry points are replaced by assert!(false)) and nothing is pulled through the concurrent interface.',
@@ -112,7 +112,7 @@ PROPS = {
     'C11': dict(
         level='proof', verus_units=['core'],
         kani=True,
-        kani_select=dict(quick=r'^k_task_\w+_n3c2_m01|^k_glue_(map_fil|filtermap_fil)_(cnt|find)_n3c2', thorough=r'^k_task_\w+c[234]_|^k_glue_\w+c[234]_'),
+        kani_select=dict(quick=r'^k_pair_|^k_task_\w+_n3c2_m01|^k_glue_(map_fil|filtermap_fil)_(cnt|find)_n3c2', thorough=r'^k_pair_|^k_task_\w+c[234]_|^k_glue_\w+c[234]_'),
         trusted_base=[T1, T5, AHW, A64, ARITH, STUBS, MODEL],
         assumptions=['T1: a pull of size c takes c consecutive elements, fewer only at the end of the source', TASK_BOUND + ' (only for "each kernel forwards its chunk size unchanged to every pull")'],
         explanation='Verus (unbounded): calc_chunk_size maps Exact(x) to Exact(x); next_chunk_size* returns Some(x) under Exact(x); the spawn log of run/run_map/reduce is constantly x for every has_more() history and every thread count. Kani (bounded): every pull a kernel task makes requests exactly the chunk size the worker was started with.',
@@ -127,15 +127,16 @@ PROPS = {
     ),
     'C13': dict(
         level='model_checking', verus_units=['merge', 'core'],
-        kani=False,
+        kani=True,
+        kani_select=dict(quick=r'^k_drop_', thorough=r'^k_drop_'),
         trusted_base=[T1, T2, T3, T4, T5, ASPEC, A64],
-        assumptions=['unbounded part only: Verus ledger of the merge; the final `set_len(0)` loop is accepted by Verus but its effect (lengths 0) is not proved (iter_mut prophecy specs); drops inside the dependencies under real concurrency are not covered'],
-        explanation='Verus (unbounded, real text): the merge reads every (vector, index) slot exactly once (ghost ledger `reads` is a bijection onto all slots) and pushes exactly that value to the output, so each value is owned exactly once by the output; Runner::run_map hands back every worker vector exactly once.',
+        assumptions=['the final `set_len(0)` loop of the merge is accepted by Verus but its effect (lengths 0) is not proved (iter_mut prophecy specs); drops inside the dependencies under real concurrency are not covered', TASK_BOUND + ' (drop harnesses: 3 owned items with drop counters, real ConIterOfVec, one worker)'],
+        explanation='Verus (unbounded, real text): the merge reads every (vector, index) slot exactly once (ghost ledger `reads` is a bijection onto all slots) and pushes exactly that value to the output, so each value is owned exactly once by the output; Runner::run_map hands back every worker vector exactly once. Kani (bounded): a drop-counting item type through filter+collect (merge path), map+collect (ordered bag path) and find with early exit over the real ConIterOfVec: after the result is dropped every item has been dropped exactly once, none twice before.',
     ),
     'C15': dict(
         level='proof', verus_units=['core'],
         kani=True,
-        kani_select=dict(quick=r'^k_glue_(map_fil|filtermap_fil)_(cnt|find)_n3c1|^k_glue_map_fil_red_n3c1', thorough=r'^k_glue_'),
+        kani_select=dict(quick=r'^k_pair_|^k_glue_(map_fil|filtermap_fil)_(cnt|find)_n3c1|^k_glue_map_fil_red_n3c1', thorough=r'^k_pair_|^k_glue_'),
         trusted_base=[T1, T5, AHW, A64, ASPEC, ARITH, STUBS, MODEL],
         assumptions=['domain restriction (known finding KF-C15-1): chunk sizes c with len + c*(T+1) > usize::MAX wrap the dependency\'s position counter; the contracts do not cover them', TASK_BOUND + ' (only for "result independent of worker count / chunk size")'],
         explanation='Verus (unbounded): every arithmetic operation, assert!, expect, index and division in parameter resolution (calc_num_threads, calc_chunk_size, div_ceil, find_chunk_size, min_chunk_size, lag/fibonacci) and in the Runner is safe for all inputs; chunk >= 1, threads >= 1; the spawn loops terminate. Kani (bounded): kernels agree with the parameter-free sequential oracle for the worker counts / chunk sizes of the shapes.',
